@@ -1255,8 +1255,7 @@ handle_null_request(int tun_fd, int dns_fd, struct dnsfd *dns_fds, struct query 
 		/* Check if duplicate of waiting queries; impatient DNS relays
 		   like to re-try early and often (with _different_ .id!)  */
 		if (users[userid].q.id != 0 &&
-		    same_waiting_query(userid, q, &users[userid].q) &&
-		    users[userid].lazy) {
+		    same_waiting_query(userid, q, &users[userid].q)) {
 			/* We have this ping already, and it's waiting to be
 			   answered. Always keep the last duplicate, since the
 			   relay may have forgotten its first version already.
@@ -1380,8 +1379,7 @@ handle_null_request(int tun_fd, int dns_fd, struct dnsfd *dns_fds, struct query 
 		/* Check if duplicate of waiting queries; impatient DNS relays
 		   like to re-try early and often (with _different_ .id!)  */
 		if (users[userid].q.id != 0 &&
-		    same_waiting_query(userid, q, &users[userid].q) &&
-		    users[userid].lazy) {
+		    same_waiting_query(userid, q, &users[userid].q)) {
 			/* We have this packet already, and it's waiting to be
 			   answered. Always keep the last duplicate, since the
 			   relay may have forgotten its first version already.
